@@ -1783,3 +1783,74 @@ func MatDyn() []Case {
 	}
 	return out
 }
+
+// CtlNest is the family of jumps through nested loop / switch constructs: loop > switch > loop > switch { jump }, with
+// every combination of loop form, single-body vs multi-case switch at each level, and continue / break at the innermost
+// level (back ends that emulate switch with do-while, or forward `continue` through flags, must keep every level apart).
+func CtlNest() []Case {
+	var out []Case
+	inA, outA := wg.Arr(wg.I32, 8), wg.Arr(wg.I32, 2)
+	in := func(i int) wg.N { return wg.Load(wg.RIdx(wg.RVar("inp", inA), wg.LitI(int32(i)), wg.I32)) }
+	st := func(i int, e wg.N) wg.N { return wg.Asg(wg.RIdx(wg.RVar("out", outA), wg.LitI(int32(i)), wg.I32), e) }
+	acc, cnt := wg.RVar("acc", wg.I32), wg.RVar("cnt", wg.I32)
+	bump := func(k int32) wg.N { return wg.Asg(acc, wg.Bin("+", wg.I32, wg.Bin("*", wg.I32, wg.Load(acc), wg.LitI(3)), wg.LitI(k))) }
+	mkLoop := func(kind, iv string, n int32, body []wg.N) []wg.N {
+		i := wg.RVar(iv, wg.I32)
+		cond := wg.Bin("<", wg.Bool, wg.Load(i), wg.LitI(n))
+		switch kind {
+		case "for":
+			return []wg.N{wg.For(wg.Var(iv, wg.I32, wg.LitI(0)), cond, wg.Inc(i), body)}
+		case "while":
+			return []wg.N{wg.Var(iv, wg.I32, wg.LitI(0)), wg.While(cond, append([]wg.N{wg.Inc(i)}, body...))}
+		}
+		return []wg.N{wg.Var(iv, wg.I32, wg.LitI(0)),
+			wg.Loop(append([]wg.N{wg.If(wg.Un("!", wg.Bool, cond), []wg.N{wg.Break()}, nil)}, body...), []wg.N{wg.Inc(i)}, wg.None)}
+	}
+	mkSwitch := func(single bool, sel wg.N, body []wg.N) wg.N {
+		if single {
+			return wg.Switch(sel, wg.Case(nil, true, body))
+		}
+		return wg.Switch(sel, wg.Case([]int{0, 2}, false, body), wg.Case([]int{1}, false, []wg.N{bump(1)}), wg.Case(nil, true, []wg.N{bump(2)}))
+	}
+	for _, ok := range []string{"loop", "for", "while"} {
+		for _, ik := range []string{"loop", "for", "while"} {
+			for _, os := range []bool{true, false} {
+				for _, is := range []bool{true, false} {
+					for _, jump := range []string{"continue", "break"} {
+						var j wg.N = wg.Continue()
+						if jump == "break" {
+							j = wg.Break()
+						}
+						// iv of the while form is incremented at the top of the body (value 1..n inside)
+						innerSel := wg.Bin("&", wg.I32, wg.Bin("+", wg.I32, wg.Load(wg.RVar("j", wg.I32)), in(1)), wg.LitI(3))
+						innerBody := []wg.N{
+							wg.Inc(cnt),
+							wg.If(wg.Bin("<", wg.Bool, in(2), wg.Load(wg.RVar("j", wg.I32))), []wg.N{bump(5), j}, nil),
+							bump(7),
+						}
+						inner := mkLoop(ik, "j", 3, []wg.N{mkSwitch(is, innerSel, innerBody), bump(11)})
+						outerSel := wg.Bin("&", wg.I32, wg.Bin("+", wg.I32, wg.Load(wg.RVar("i", wg.I32)), in(0)), wg.LitI(3))
+						outerBody := append(append([]wg.N{}, inner...), bump(13))
+						outer := mkLoop(ok, "i", 3, []wg.N{mkSwitch(os, outerSel, outerBody), bump(17)})
+						body := append([]wg.N{wg.Var("acc", wg.I32, in(3)), wg.Var("cnt", wg.I32, wg.LitI(0))}, outer...)
+						body = append(body, st(0, wg.Load(acc)), st(1, wg.Load(cnt)))
+						globals := []wg.N{wg.Global("inp", "storage", "r", inA, 0, 0, wg.None), wg.Global("out", "storage", "rw", outA, 0, 1, wg.None)}
+						sw := func(b bool) string {
+							if b {
+								return "single"
+							}
+							return "multi"
+						}
+						c := Case{Family: "ctlnest", Desc: fmt.Sprintf("ctlnest %s>%s>%s>%s %s", ok, sw(os), ik, sw(is), jump),
+							Prog: wg.Program(nil, nil, globals, []wg.N{wg.Entry("main", nil, body)})}
+						for _, r := range [][]int32{{0, 0, 0, 1, 0, 0, 0, 0}, {1, 2, 1, 2, 0, 0, 0, 0}, {2, 1, -1, 3, 0, 0, 0, 0}, {3, 3, 5, 1, 0, 0, 0, 0}, {0, 1, 2, 7, 0, 0, 0, 0}} {
+							c.Inputs = append(c.Inputs, [][]int32{r, {0, 0}})
+						}
+						out = append(out, c)
+					}
+				}
+			}
+		}
+	}
+	return out
+}
